@@ -33,7 +33,7 @@ def run(ctx):
     ctx.rule("C11-R1", "reads()/writes() declare exactly what fetch() borrows")
     ctx.rule("C11-R2", "the storage handle is built from the declared resources of the same component type")
     for cfg in configs(ctx.tier):
-        facts = ctx.facts(cfg)
+        facts = ctx.xfacts(cfg)
         r1(ctx, facts)
     witness.run_set(ctx, "C11", ["w5_read_storage_no_insert", "w5_read_storage_no_get_mut", "w5_read_storage_no_remove", "w5_read_storage_no_entry",
                                  "w5_read_storage_no_restrict_mut", "w5_read_storage_no_channel_mut", "w5_read_storage_no_drain",
@@ -87,6 +87,14 @@ def r1(ctx, facts):
         ok = ex == dw
         ctx.ob("C11-R1", "%s: writes() == exclusive borrows of fetch()" % st, ok, w.loc(),
                "" if ok else "declared writes %s but fetch() borrows exclusively %s: two systems may write the same storage at once, or a borrow panics at run time" % (dict(dw), dict(ex)))
+        # a declaration of a generic impl must be computed per instantiation: a function-local static is shared by all of them
+        owners = {x["static"].rsplit("::", 1)[0] for x in facts.statics}
+        for nm, body in (("reads", r), ("writes", w)):
+            srcs = {body.path} | {body.src(bb) for bb in body.blocks}
+            hit = sorted(o for o in owners if any(x == o or x.startswith(o + "::") for x in srcs))
+            ctx.ob("C11-R1", "%s: %s() is computed per instantiation (no function-local static)" % (st, nm), not hit, body.loc(),
+                   "" if not hit else "the declaration goes through a static item of %s: in a generic impl one static is shared by every component type, "
+                   "so all storages declare the resources of whichever type asked first" % hit)
         ok = not (set(sh) & set(ex))
         ctx.ob("C11-R1", "%s: no resource is borrowed both ways" % st, ok, f.loc(), "" if ok else "fetch() borrows %s both shared and exclusively" % sorted(set(sh) & set(ex)))
         # R2
